@@ -72,7 +72,8 @@ def shapes(quick):
         reg(nm, lambda h, l, fn=fn: getattr(h, fn)())
     # numbers: special values concretely, short decimals symbolically (sign, 1-2 integer digits, 0-1 fraction digits)
     for nm, v in (('nan', float('nan')), ('inf', float('inf')), ('ninf', float('-inf')), ('zero', 0.0), ('nzero', -0.0),
-                  ('big', 1e21), ('tiny', 5e-324), ('frac', 0.1), ('max', 1.7976931348623157e308), ('int53', 9007199254740993.0)):
+                  ('big', 1e21), ('tiny', 5e-324), ('frac', 0.1), ('max', 1.7976931348623157e308), ('int53', 9007199254740993.0),
+                  ('2p63', 9223372036854775808.0), ('m2p63', -9223372036854775808.0), ('2p64', 18446744073709551616.0), ('2p53', 9007199254740992.0)):
         reg('num-' + nm, lambda h, l, v=v: h.num(v))
     # values whose scientific spelling has a non-trivial mantissa, a negative or an extreme exponent (reader direction of C04)
     for nm, v in (('sci-a', 1.1e-5), ('sci-b', 3e-5), ('sci-c', 1.2345e-7), ('sci-d', 2.2250738585072014e-308), ('sci-e', 1e-320),
